@@ -205,8 +205,8 @@ def _bound(index, fi, w, val):
     # (c) constructed with the list's namespace
     if isinstance(val, ast.Name):
         defs = [d for d in walk_no_nested(fi.node) if isinstance(d, ast.Assign) and norm(d.targets[0]) == val.id]
+        oks = []
         if defs:
-            oks = []
             for d in defs:
                 v = d.value
                 if isinstance(v, ast.Call) and norm(v.func) in ("self.tree_type", "self.tree_factory", "self.__class__.tree_type"):
@@ -226,13 +226,18 @@ def _bound(index, fi, w, val):
                     oks.append(bool(inner) and all(_bound_value_expr(fi, x.args[0]) for x in inner))
                     continue
                 oks.append(False)
-            if all(oks):
-                return True, "constructed with taxon_namespace=self.taxon_namespace"
-        # (d) every element imported in a dominating loop: for t in value: import(t)
-        loops = [l for l in walk_no_nested(fi.node) if isinstance(l, ast.For) and norm(l.iter) == val.id]
+        good_defs = [d for d, o in zip(defs, oks)] if defs and all(oks) else []
+        # (d) every element imported in a loop: for t in value: import(t)
+        loops = [l for l in walk_no_nested(fi.node) if isinstance(l, ast.For) and norm(l.iter) == val.id
+                 and any(isinstance(c, ast.Call) and call_name(c) == "_import_tree_to_taxon_namespace" and c.args and norm(c.args[0]) == norm(l.target) for c in ast.walk(l))]
+        # the binding definitions / import loops must cover every path to the store
+        binders = set()
+        for d in good_defs:
+            binders |= {n.id for n in stmt_nodes(cfg, d)}
         for l in loops:
-            if any(isinstance(c, ast.Call) and call_name(c) == "_import_tree_to_taxon_namespace" and c.args and norm(c.args[0]) == norm(l.target) for c in ast.walk(l)):
-                return True, "each element imported in a loop"
+            binders |= {n.id for n in cfg.nodes if n.kind == "for" and n.ast is l}
+        if binders and cfg.dominated_by(wn, lambda n: n.id in binders):
+            return True, "constructed over / imported into self.taxon_namespace on every path"
     return False, "?"
 
 
